@@ -213,7 +213,7 @@ def base_values(rng, tier):
              Fraction(1, 1 << 150), Fraction(1, 1 << 1074), Fraction(1, 1 << 1075), Fraction(3, 1 << 1074),
              Fraction(1, 1 << 126), Fraction((1 << 24) - 1, 1 << 149), Fraction(1 << 24, 1), Fraction((1 << 24) + 1),
              Fraction((1 << 53) + 1), Fraction(1 << 53)]
-    n = 60 if tier == "quick" else 600
+    n = 60 if tier == "quick" else 2500
     for _ in range(n):
         r = rng.random()
         if r < 0.25:        # integers of every size class
@@ -289,7 +289,7 @@ def gen_equal_adjacent(rng, tier):
 
 def gen_far(rng, tier):
     vals = base_values(rng, tier)
-    n = 400 if tier == "quick" else 6000
+    n = 400 if tier == "quick" else 40000
     for _ in range(n):
         v, w = rng.choice(vals), rng.choice(vals)
         a, b = rng.choice(reps(v, rng)), rng.choice(reps(w, rng))
@@ -325,7 +325,7 @@ def gen_special(rng, tier):
 
 def gen_hash_corner(rng, tier):
     """denominators that are multiples of M = 2^127 - 1; reduced (RBig) vs non-reduced (Relaxed)"""
-    n = 40 if tier == "quick" else 400
+    n = 40 if tier == "quick" else 3000
     for _ in range(n):
         a = rng.choice([1, 2, 3, 5, -1, -7, rng.getrandbits(64) + 1, M127, -M127, M127 * 3, rng.getrandbits(200) + 1])
         b = rng.choice([1, 1, 3, 5, 8, rng.getrandbits(64) | 1, 10 ** 6])
@@ -342,9 +342,9 @@ def gen_hash_corner(rng, tier):
 
 def gen_slack(rng, tier):
     """|log2 x - log2 y| inside / just outside the f32 filter's slack: x and y = x (1 + 2^-k)"""
-    Ls = [60, 130, 1000, 5000] + ([20000, 70000] if tier == "quick" else [20000, 70000, 300000, 1 << 20])
+    Ls = [60, 130, 1000, 5000] + ([20000, 70000] if tier == "quick" else [20000, 70000, 300000, 1 << 20, 1 << 22])
     ks = [3, 8, 12, 16, 18, 20, 21, 22, 23, 24, 25, 26, 28, 32, 40]
-    reps_n = 2 if tier == "quick" else 6
+    reps_n = 2 if tier == "quick" else 16
     for L in Ls:
         for k in ks:
             if k >= L:
@@ -433,7 +433,7 @@ def gen_huge(rng, tier):
 
 def gen_same_base(rng, tier):
     """AbsOrd / Ord of two FBigs of one base: the exponent+precision and exponent+digits shortcuts"""
-    n = 300 if tier == "quick" else 4000
+    n = 300 if tier == "quick" else 20000
     for _ in range(n):
         B = rng.choice([2, 10, 16])
         d1 = rng.choice([1, 2, 5, 20, 60]); d2 = rng.choice([1, 2, 5, 20, 60])
@@ -496,6 +496,31 @@ def gen_encl(rng, tier):
                     ee = sg * e + rng.choice([0, 0, 1, -1, 2, 5])
                     yield Case("log2encl", [fenc(B, s * rng.choice([1, -1]), ee, prec=0)])
 
+def gen_estimator_edge(rng, tier):
+    """exponents beyond 2^24, where `exponent as f32` rounds (the enclosure hypothesis is known to fail there by
+    less than an ulp): pairs of floats in power-of-two bases whose log2 differ by a few units, compared exactly"""
+    n = 150 if tier == "quick" else 8000
+    for _ in range(n):
+        base = rng.choice([1 << 24, 1 << 25, 1 << 25, 1 << 26])
+        e1 = -(base + rng.randrange(-40, 41))
+        s1 = rng.randrange(1, 2000, 2)
+        B2 = rng.choice([2, 2, 16])
+        # log2 y within +-3 of log2 x
+        s2 = rng.randrange(1, 2000, 2)
+        t = e1 + s1.bit_length() - s2.bit_length() + rng.randrange(-3, 4)
+        if B2 == 16:
+            e2 = t // 4
+        else:
+            e2 = t
+        sg = rng.choice([1, 1, -1])
+        x = fenc(2, sg * s1, e1, prec=0)
+        y = fenc(B2, sg * s2, e2, prec=0)
+        if rng.random() < 0.5:
+            x, y = y, x
+        yield Case("numcmp", [x, y])
+        if rng.random() < 0.2:
+            yield Case("log2encl", [x])
+
 def gen_overflow(rng, tier):
     """DEFECT E directed: |exponent| * bit_len(B) around isize::MAX against f32/f64"""
     for B, bl in ((2, 2), (10, 4), (16, 5)):
@@ -511,6 +536,7 @@ def generate(rng, tier):
     yield from gen_special(rng, tier)
     yield from gen_encl(rng, tier)
     yield from gen_overflow(rng, tier)
+    yield from gen_estimator_edge(rng, tier)
     yield from gen_equal_adjacent(rng, tier)
     yield from gen_far(rng, tier)
     yield from gen_hash_corner(rng, tier)
@@ -617,15 +643,80 @@ def kf_float_exp_overflow(args):
                 return True
     return False
 
+def kf_log2_exp_rounding(args):
+    """ESTIMATOR finding: FBig with |exponent| >= 2^24 (`self.exponent as f32` is inexact there)"""
+    t = args[0].split(":")
+    return t[0] == "f" and abs(int(t[3])) >= (1 << 24)
+
 # ----------------------------------------------------------------------------- texts
 
-REFINED = []
-FRONTIER = []
-RULE = ""
-EXPLANATION = ""
-ASSUMPTIONS = []
-LEVEL_TEXT = ""
-LEVEL_NOTE = ""
+REFINED = [
+    "float/src/cmp.rs repr_cmp_ubig::<B,false>, repr_cmp_ibig::<B,false> (sign -> log2-bound filter -> exact scaling), for every sound oracle",
+    "float/src/cmp.rs repr_cmp_same_base::<B,ABS> (Ord / AbsOrd for FBig: infinities, signs, zeros, exponent+precision and exponent+digits shortcuts, aligned exact step)",
+    "float/src/cmp.rs repr_cmp_ubig/ibig::<B,true> (AbsOrd FBig x UBig/IBig) for non-negative operands (partial: defect B)",
+    "float/src/third_party/num_order.rs NumOrd<Repr<B2>> for Repr<B1> (any two bases), NumOrd<f32/f64> for Repr<B> (bit-length bounds; partial: defect A)",
+    "integer/src/third_party/num_order.rs NumOrd between UBig/IBig and each other, all primitive integers, f32/f64 (partial: defects A, F)",
+    "rational/src/cmp.rs repr_cmp::<ABS>, repr_eq::<ABS>, repr_cmp_ubig/ibig::<ABS>, with_float::repr_cmp_fbig::<B,ABS>",
+    "rational/src/third_party/num_order.rs NumOrd<f32/f64> for Repr (partial: defect A), the dispatch table of all implemented pairs",
+    "FloatEncoding::decode as used by the comparisons (bit pattern -> NaN / +-inf / man*2^exp; range lemma decode_inRange)",
+    "NumHash for UBig, IBig, Repr<B>/FBig, rational Repr (RBig, Relaxed), and num-order's impls for every primitive integer and f32/f64: "
+    "each feeds hashQ(value) = +-(|n| mod M)(d mod M)^-1 in Z/M, M = 2^127-1 proved prime (partial: denominators that are units mod M; defect C)",
+    "the driver's oracles (bit-length bounds with a 1/1024-precise rational enclosure of log2 B; never-filter) satisfy the enclosure hypothesis",
+]
+FRONTIER = [
+    "Ord for UBig/IBig (TypedReprRef::cmp, cmp_in_place), shl_digits / << / * / UBig::pow on big integers: used at their value (compare, *B^n); refined by C01/C05",
+    "num-modular FixedMersenneInt<127,1> (convert/pow/inv): used at its specification (arithmetic mod 2^127-1; inv = the unique inverse)",
+    "the real f32 estimators (UBig/IBig/Repr<B>/rational log2_bounds, digits_ub): a PARAMETER of the theorems; the enclosure hypothesis is checked "
+    "on the real code per generated input by the harness op log2encl (f64 recomputation), not proved",
+    "machine isize arithmetic in the bit-length estimates is modelled in Int (overflow = recorded defect E)",
+]
+RULE = ("values drawn from families {small integers, boundaries of every primitive integer type, f32/f64 range boundaries (2^24, 2^53, max, least "
+        "subnormal, 2^1024, bit lengths 1077/1078), multiples and neighbours of M = 2^127-1, integers of 1..40 words in 11 bit patterns, dyadic, "
+        "decimal, exact f32/f64 incl. subnormals, generic rationals}; each value is RENDERED IN EVERY TYPE THAT CAN HOLD IT (UBig, IBig, 12 primitive "
+        "integer types, FBig in bases 2/10/16 incl. un-normalised inputs and precision 0 / exact / larger, RBig, non-reduced Relaxed, f32, f64); cases "
+        "= pairs of renderings of (a) the same value, (b) adjacent values (+-1 in the numerator over inflated denominators, +-1 ulp), (c) negated "
+        "values (AbsOrd), (d) unrelated values; plus zeros, +-0.0, +-inf, NaN of every kind against everything; pairs x, x(1+2^-k) for bit lengths "
+        "60..2^20 and k around the f32 resolution 16..26 (inside / just outside the filter's slack); exponents up to 10^15 and 2^62 far apart (must "
+        "not be materialised) and 10^(10^3..10^6) against the integer of the same size +-1; same-base FBig pairs around the exponent+precision and "
+        "exponent+digits shortcut boundaries; denominators that are multiples of M (reduced RBig vs non-reduced Relaxed); exponents beyond 2^24 "
+        "where `exponent as f32` rounds; |exponent|*bit_len(B) around isize::MAX; iN::MIN magnitudes. Ops: numcmp (num_partial_cmp + num_cmp, "
+        "num_eq/ne/lt/le/gt/ge must agree; FBig also through Repr<B> and with a different rounding-mode type), numeq, abscmp, abseq, ordcmp, numhash "
+        "(recorded Hasher::write calls), hasheq, log2encl (enclosure hypothesis on the real estimator). Non-trivial := the two arguments are of "
+        "different kinds; distinct := distinct (op,args) lines.")
+EXPLANATION = ("Theorems (all inputs, no size bounds; for EVERY estimator satisfying the enclosure hypothesis lb <= log2|x| <= ub): each mirrored "
+               "comparison function (sign -> log2-bound filter -> exact comparison after scaling) returns the order of the exact rationals, NaN "
+               "incomparable, -0.0 = 0, infinities at the ends, i.e. the estimate path and the exact path cannot disagree; the whole dispatch table of "
+               "implemented NumOrd / AbsOrd pairs is covered (num_ord_exact_partial, abs_ord_exact_partial), partial exactly outside the recorded "
+               "defect classes A (zero vs tiny positive float), F (IBig vs infinity of its sign), B (AbsOrd FBig x UBig/IBig with negative operands), each "
+               "with a counterexample theorem. NumHash: every impl feeds hashQ(value) in Z/(2^127-1) (prime, proved by Lucas-Lehmer), hence equal "
+               "values of any two types feed the same i128 whenever rational denominators are units mod M; the M | den corner is decided: consistent "
+               "unless M divides BOTH stored parts of a non-reduced Relaxed (counterexample RBig 1/1 vs Relaxed M/M, reproduced on the real code), and "
+               "the cancelled variant is a function of the value for all rationals. The driver runs the model with a bit-length oracle and with a "
+               "never-filtering oracle (both proved sound) and against the specification on every case.")
+ASSUMPTIONS = [
+    "the real f32 estimators satisfy the enclosure hypothesis on the compared inputs (checked per generated input by `log2encl`; KNOWN to fail by < 1 ulp for FBig exponents beyond 2^24 — recorded finding — with no wrongly decided comparison found)",
+    "big-integer Ord, shifts, products and powers compute their mathematical values (C01/C05/C09)",
+    "num-modular's FixedMersenneInt arithmetic is arithmetic modulo 2^127-1 and Hasher::write_i128 forwards 16 native-endian bytes to write (observed by the recording hasher)",
+    "FBig operands respect their constructors' invariants: significand 0 only with exponent 0 / +-1, digits <= precision (+1) when the precision is limited",
+    "no isize overflow in the bit-length estimates (|exponent| * bit_len(B) < 2^63; beyond that: recorded defect E)",
+]
+LEVEL_TEXT = ("Machine-checked Lean 4 theorems, for all inputs and for every estimate oracle satisfying the enclosure hypothesis, that the mirrored "
+              "NumOrd / AbsOrd code of all implemented type pairs returns the order of the exact rationals (partial exactly outside three recorded "
+              "defect classes, each with a counterexample theorem reproduced on the real code) and that every NumHash impl feeds a function of the exact "
+              "value in Z/(2^127-1) (the M | den corner decided, with witness). The hand-written model is tied to /repo on every run by differential "
+              "execution of model and real code over pairs rendered in every type, adjacent values, filter-slack pairs, huge exponents, specials; the "
+              "enclosure hypothesis is additionally checked on the real estimator for every generated operand.")
+LEVEL_NOTE = ("Trusted: Lean kernel; axioms propext/Classical.choice/Quot.sound (Mathlib reals are used only to STATE log2 enclosure); the "
+              "correspondence harness and generators (sampling) for the tie model<->code; the f32 estimators enter only through the enclosure "
+              "hypothesis, which is tested (f64 recomputation with a tolerance far below f32 resolution), not proved, and is known to fail marginally "
+              "for exponents beyond 2^24; big-integer primitives and num-modular are used at their specifications (frontier list).")
+THEOREMS = ["Dashu.Props.C14." + n for n in (
+    "spec_lt spec_eq spec_gt float_value_rat abs_value_rat enclosure_is_log2 filter_sound coarse_sound noFilter_sound "
+    "float_cmp_ubig float_cmp_ibig float_cmp_float ratio_cmp_ubig ratio_cmp_ibig ratio_cmp_float ratio_cmp_ratio ratio_eq_ratio "
+    "num_ord_exact_partial num_eq_exact_partial num_ord_oracle_independent num_ord_zero_counterexample num_ord_inf_counterexample "
+    "decoded_in_range abs_ord_exact_partial abs_ord_counterexample abs_ord_ibig_counterexample float_abs_cmp_same_base ord_exact "
+    "ratio_abs_cmp_ratio ratio_abs_cmp_float mersenne127_prime hash_is_function_of_value num_hash_value_partial "
+    "num_hash_corner_counterexample num_hash_canon_value num_hash_canon_eq_code").split()]
 TECHNIQUE = "Lean 4 theorems over an executable mirrored model with estimate-oracle parameters + differential correspondence model vs real code"
 JOBS = 14
-READY = False
+READY = True
